@@ -68,7 +68,39 @@ def colour_ok(c, name, opacity):
     return (c.red, c.green, c.blue) == (ref.red, ref.green, ref.blue) and abs(c.alpha - a) <= 1.0
 
 
+def check_width_pct(case):
+    """stroke-width="p%": a percentage that is neither a width nor a height refers to the normalised diagonal of the viewport,
+    sqrt((w^2 + h^2) / 2) (SVG 1.1 section 7.10) - irrational in general, hence a closed formula here and not a TLC value"""
+    W, H, p, how = case["W"], case["H"], case["p"], case["how"]
+    decl = {"attr": 'stroke-width="%d%%"' % p, "inline": 'style="stroke-width:%d%%"' % p, "parent": ""}[how]
+    inner = '<rect x="1" y="2" width="30" height="40" stroke="red" %s/>' % decl
+    if how == "parent":
+        inner = '<g stroke-width="%d%%">%s</g>' % (p, inner)
+    xml = '<svg xmlns="http://www.w3.org/2000/svg" width="%d" height="%d">%s</svg>' % (W, H, inner)
+    want = p / 100.0 * math.sqrt((W * W + H * H) / 2.0)
+    dis = []
+    for reify in (True, False):
+        what = "parse(reify=%s) of %s" % (reify, xml)
+        try:
+            d = svg.SVG.parse(io.StringIO(xml), reify=reify)
+            sh = [e for e in d.elements() if isinstance(e, svg.Shape)][0]
+            got = sh.implicit_stroke_width
+        except engine.CaseTimeout:
+            raise
+        except Exception as e:
+            dis.append({"clause": "Raises", "detail": "%s raised %s: %s" % (what, type(e).__name__, str(e)[:80])})
+            continue
+        if got is None or abs(got - want) > 1e-9 * max(1.0, want):
+            dis.append({"clause": "StrokeWidthPercent", "detail": "%s: stroke width %r, %d%% of the normalised diagonal %r is %r" % (what, got, p, math.sqrt((W * W + H * H) / 2.0), want)})
+    for x in dis:
+        x["kind"] = "width_pct"
+        x["xml"] = xml
+    return {"dis": dis, "nontrivial": True, "class": "width_pct", "xml": xml, "checked": ["StrokeWidthPercent"]}
+
+
 def check_case(case):
+    if "W" in case:
+        return check_width_pct(case)
     doc, sheet, cc, out, k = case["doc"], case["sheet"], case["callerColor"], case["out"], case["n"] + case["seed"]
     xml = docutil.to_xml(doc, k, paint_attrs=paint_attrs, prolog=sheet_text(sheet, k))
     dis = []
@@ -161,6 +193,10 @@ def run(tier, seed):
         for case, r in engine.replay("harness.c14", gen, chunk=100):
             run.record(case, r, key=r.get("xml", str(case["doc"])) + case["callerColor"])
             bykind["generated"] = bykind.get("generated", 0) + 1
+        pct = [{"W": W, "H": H, "p": p, "how": how} for (W, H) in ((300, 400), (200, 100), (70, 170), (96, 96)) for p in (10, 25) for how in ("attr", "inline", "parent")]
+        for case, r in engine.replay("harness.c14", pct, chunk=8):
+            run.record(case, r, key=r.get("xml"))
+            bykind["width_pct"] = bykind.get("width_pct", 0) + 1
         run.extra["cases_by_kind"] = bykind
         run.extra["exhaustive"] = True
     finally:
